@@ -15,7 +15,7 @@ ASSUMPTIONS = ['the statement does not say whether the range end is included: bo
                'a setting "is present" at i iff an equal text is in ansi_settings_at(i) (multiplicity ignored, as the '
                'library\'s own membership test)']
 MIN_EVAL = 800
-CASES = {'quick': 80, 'thorough': 1800}
+CASES = {'quick': 800, 'thorough': 10800}
 WEIGHTS = {'apply': 14, 'find_settings': 6, 'settings_at': 3, 'remove': 3, 'getitem': 2, 'add': 2, 'query': 0.1}
 
 
